@@ -25,7 +25,46 @@ fn big_tx(rng: &mut Rng) -> String {
     st.join(";")
 }
 
+/// scenario "overwritten range": the receiver misses a contiguous block of the transaction's statements; the
+/// origin then overwrites those rows (all of their cells, or only some) in a later version, so that the answer
+/// to the receiver's Partial need is a chunk with NO change (or fewer); the version must still become visible.
+fn gen_overwritten(rng: &mut Rng) -> Vec<String> {
+    let k = rng.range(3, 6) as usize; // statements, two changes each: seqs 2j, 2j+1
+    let st: Vec<String> = (0..k).map(|j| format!("ins:t:i{}:a=t{:02x},b=i{}", 10 + j, rng.range(0x61, 0x79), rng.range(0, 9))).collect();
+    let mut ops = vec![format!("nw 0 {}", st.join(";")), "TARGET".to_string(), "ndump 1".to_string()];
+    let m_lo = rng.below(k as u64) as usize;
+    let m_hi = (m_lo + rng.below(2) as usize).min(k - 1);
+    // deliver everything except statements m_lo..=m_hi, as one or two chunks, in a seeded order
+    let mut chunks = vec![];
+    if m_lo > 0 {
+        chunks.push(format!("o:0:V:0-{}", 2 * m_lo - 1));
+    }
+    if m_hi + 1 < k {
+        chunks.push(format!("o:0:V:{}-{}", 2 * (m_hi + 1), 2 * k - 1));
+    }
+    rng.shuffle(&mut chunks);
+    for c in &chunks {
+        ops.push(format!("nb 1 {c}"));
+        ops.push("ndump 1".into());
+    }
+    // the origin overwrites the missing rows
+    let full = rng.chance(2, 3);
+    let ups: Vec<String> = (m_lo..=m_hi)
+        .map(|j| if full || rng.chance(1, 2) { format!("upd:t:i{}:a=t7a7a,b=i77", 10 + j) } else { format!("upd:t:i{}:b=i77", 10 + j) })
+        .collect();
+    ops.push(format!("nw 0 {}", ups.join(";")));
+    // reference node gets the whole version first, then everybody syncs with the origin
+    ops.push("nb 2 o:0:V:all".into());
+    ops.push("ndump 2".into());
+    ops.push(format!("nsync 1 {} all", if rng.chance(2, 3) { 0 } else { 2 }));
+    ops.push("ndump 1".into());
+    ops
+}
+
 fn gen_ops(rng: &mut Rng, tier: Tier) -> Vec<String> {
+    if rng.chance(1, 3) {
+        return gen_overwritten(rng);
+    }
     let mut ops = vec![];
     // some earlier history on the origin and the receiver (conflicting rows), already exchanged or not
     let pre = rng.range(0, 3);
@@ -117,7 +156,12 @@ impl Prop for C03 {
             }
         }
         ops.insert(0, "nw 0 ins:t:i9:a=t6f,b=i1".into()); // version 1 of node 0, always succeeds
-        let ops = resolve(&ops);
+        let mut ops = resolve(&ops);
+        // closing block: both the receiver and the reference node sync with the origin (lossless); their tables
+        // must then agree on the transaction's rows
+        for o in ["nsync 1 0 all", "nsync 2 0 all", "nsync 1 0 all", "ndump 1", "ndump 2"] {
+            ops.push(o.to_string());
+        }
         // target = version 2 of node 0; a later overwrite is version 3
         ops.into_iter().map(|o| o.replace(":V:", ":2:")).collect()
     }
@@ -140,6 +184,11 @@ impl Prop for C03 {
 
 fn rows_of(dump: &str) -> String {
     dump.split(" | ").nth(1).unwrap_or("").to_string()
+}
+
+fn book_clean(dump: &str) -> bool {
+    let book = dump.split(" | ").nth(2).unwrap_or("");
+    book.contains("seqs[]") && book.contains("buf[]")
 }
 
 fn proj(dump: &str) -> String {
@@ -217,7 +266,12 @@ fn oracle(ops: &[String], outs: &[String], r: &mut CaseResult) {
                 }
             }
             ["nsync", "1", _, _] => synced = true,
-            ["ndump", "2"] => reference = Some(out.clone()),
+            ["ndump", "2"] => {
+                // the reference is the dump taken right after the whole-version delivery (before any sync)
+                if reference.is_none() {
+                    reference = Some(out.clone());
+                }
+            }
             ["ndump", "1"] => {
                 let keys = target_keys(&rows_of(out));
                 let all_cov = covered.iter().all(|c| *c);
@@ -265,6 +319,22 @@ fn oracle(ops: &[String], outs: &[String], r: &mut CaseResult) {
         };
         if keyed(&got) != keyed(&refd) {
             r.oracle_failures.push("chunked delivery and whole delivery disagree on per-cell (col_version, cl) of the transaction's rows".into());
+        }
+    }
+    // closing block: after lossless sessions with the origin the receiver and the reference agree on the
+    // transaction's rows and their (col_version, cl)
+    let n = ops.len();
+    if n >= 2 && ops[n - 2] == "ndump 1" && ops[n - 1] == "ndump 2" {
+        let (d1, d2) = (&outs[n - 2], &outs[n - 1]);
+        let a = target_keys(&rows_of(d1));
+        let b = target_keys(&rows_of(d2));
+        if a != b {
+            r.oracle_failures.push(format!(
+                "after lossless sync with the origin the receiver of the chunked transaction and the reference node disagree on its rows: {a:?} vs {b:?}"
+            ));
+        }
+        if !book_clean(d1) {
+            r.oracle_failures.push("the receiver still holds buffered / partial data of a version after its missing ranges were answered by a holder".into());
         }
     }
     r.nontrivial = chunks_before_visible >= 2;
